@@ -69,6 +69,8 @@ func classify(err error) int {
 		return 8
 	case strings.Contains(s, "is too big"):
 		return 9
+	case strings.Contains(s, "is too small"):
+		return 12
 	}
 	return 50
 }
@@ -107,12 +109,12 @@ func decrypt(side int, k crypto.AuthKey, ct []byte) decObs {
 
 func coqDec(o decObs) string {
 	if o.Code != 0 {
-		return hx.Tuple(hx.Z(int64(o.Code)), hx.Tuple("0", "0", "0", "0"), "0", "[]")
+		return hx.Tuple(hx.Z(int64(o.Code)), hx.Tuple("0", "0", "0", "0"), "0", "(0, 0)")
 	}
-	return hx.Tuple("0", hx.Tuple(hx.Z(o.Salt), hx.Z(o.Session), hx.Z(o.MsgID), hx.Z(int64(o.SeqNo))), hx.Z(int64(o.MLen)), hx.Bytes(o.Body))
+	return hx.Tuple("0", hx.Tuple(hx.Z(o.Salt), hx.Z(o.Session), hx.Z(o.MsgID), hx.Z(int64(o.SeqNo))), hx.Z(int64(o.MLen)), hx.PackedBytes(o.Body))
 }
 
-var errNames = map[int]string{0: "accepted", 2: "short", 3: "key-id", 4: "align", 5: "msg-key", 6: "len-big", 7: "len-neg", 8: "len-mod4", 9: "pad-big", 50: "other-error", 99: "panic"}
+var errNames = map[int]string{0: "accepted", 2: "short", 3: "key-id", 4: "align", 5: "msg-key", 6: "len-big", 7: "len-neg", 8: "len-mod4", 9: "pad-big", 12: "pad-small", 50: "other-error", 99: "panic"}
 
 // run one attempt on the real code under the oracle; emit => also a Coq correspondence case.
 func run(c *hx.Ctx, t tc, emit bool) decObs {
@@ -120,7 +122,7 @@ func run(c *hx.Ctx, t tc, emit bool) decObs {
 	o := decrypt(t.Side, mkKey(t.Key, t.KeyID), t.CT)
 	sh, ix := -1, 0
 	if emit {
-		sh, ix = c.Case(hx.Tuple(hx.Z(int64(t.Side)), hx.Bytes(t.Key), hx.Bytes(t.KeyID), hx.Bytes(t.CT), coqDec(o)), t)
+		sh, ix = c.Case(hx.Tuple(hx.Z(int64(t.Side)), hx.PackedBytes(t.Key), hx.PackedBytes(t.KeyID), hx.PackedBytes(t.CT), coqDec(o)), t)
 	}
 	c.Count(t.Class + " -> " + errNames[o.Code])
 	switch {
@@ -312,6 +314,18 @@ func main() {
 			k2[i] ^= 1 // read only for x = 0
 		}
 		run(c, tc{Class: "equivalent-key(no claim)", Side: 1 - b.side, Key: k2, KeyID: b.keyID, CT: b.ct, Expect: "none"}, true)
+	}
+	// 3b. correspondence only (C07 owns the claim): well-authenticated messages whose padding, as seen by the
+	//     receiver, is 8 / 0 bytes (sender declared a MessageDataLen that eats into the random padding)
+	for _, eat := range []int{8, 16} {
+		b := base{side: r.Intn(2), key: r.Bytes(256), keyID: r.Bytes(8)}
+		body := r.Bytes(16)
+		var buf bin.Buffer
+		data := crypto.EncryptedMessageData{Salt: 1, SessionID: 2, MessageID: 3, SeqNo: 4, MessageDataLen: int32(len(body) + eat), MessageDataWithPadding: body}
+		if err := cipherFor(b.side, &fixedReader{b: append([]byte{0x30}, r.Bytes(16)...)}).Encrypt(mkKey(b.key, b.keyID), data, &buf); err != nil {
+			panic(err)
+		}
+		run(c, tc{Class: "crafted:small-padding(no claim)", Side: 1 - b.side, Key: b.key, KeyID: b.keyID, CT: append([]byte(nil), buf.Buf...), Expect: "none"}, true)
 	}
 	// 4. arbitrary short / random inputs (totality)
 	for i := 0; i < c.N(40, 1000); i++ {
